@@ -531,6 +531,7 @@ type running struct {
 	done       chan struct{}
 	pos, tpos  []byte
 	err        error
+	early      bool // returned while its own downstream call was still held inside the fake
 }
 
 func prepare(p *hx.Plan, w *world, idx, k int, c map[string]interface{}) *running {
@@ -586,7 +587,7 @@ func (r *running) result(w *world, downs []*wfake2.Call) hx.Event {
 	}
 	return hx.Event{
 		"c": hx.Event{"ch": r.ch, "pack": hx.SL(r.c, "pack"), "fail": hx.B(r.c, "fail")},
-		"o": hx.Event{"down": down, "ret": hx.Event{"err": r.err != nil, "ckpt": ckpt, "tgt": tgt}},
+		"o": hx.Event{"down": down, "ret": hx.Event{"err": r.err != nil, "ckpt": ckpt, "tgt": tgt, "early": r.early}},
 	}
 }
 
@@ -675,10 +676,19 @@ func runPlan(p *hx.Plan) []hx.Event {
 				first = 0
 			}
 			order = []int{first, 1 - first}
-			for _, i := range order {
+			for n, i := range order {
 				close(release[w.chName[rs[i].ch]])
+				other := rs[order[len(order)-1-n]]
+				otherDone := other.done
+				if n > 0 {
+					otherDone = nil // already released
+				}
 				select {
 				case <-rs[i].done:
+				case <-otherDone:
+					// the OTHER caller returned although its downstream call is still held inside the fake: observed, not
+					// machinery - its results are logged as they are and the contract judges them
+					other.early = true
 				case <-time.After(gateTimeout):
 					if overlap {
 						machineryFailure("released replicate call did not return")
